@@ -6,7 +6,7 @@ qm_c15 — driver for the failure-containment part of M-Exec (`QM.Exec`, Core/Ex
 lengths are compared.
 
 Requests (one per line; `W` = worker index):
-  (init n)                               n workers; the REPL process 0 sleeps on worker 0        → ok
+  (init n [on])                          n workers; the REPL process 0 sleeps on worker 0; `on` = variant selectWaitsForAnswer → ok
   (cmd W spawn pid)                      SpawnProcess / StartProcess with a function
   (cmd W deliver pid)                    DeliverMessage
   (cmd W update awaiter (t none|ok|(err Class))…)   UpdateAwaitResults
@@ -179,6 +179,14 @@ def c15Step (s : St) (req : List Sx) : St × String :=
     | some n =>
       let w0 : Worker Val := { ex := { procs := [(0, { result := some (.ok ()) })] } }
       ({ ws := w0 :: List.replicate (n - 1) {} }, "ok")
+    | none => (s, "bad-request")
+  -- `(init n on)`: the workers mirror notes/C05-fixes/01 (a FAILED target is answered in the first answer)
+  | [.list [.atom "init", n, .atom "on"]] =>
+    match n.asNat with
+    | some n =>
+      let v : Variant := { selectWaitsForAnswer := true }
+      let w0 : Worker Val := { ex := { procs := [(0, { result := some (.ok ()) })] }, variant := v }
+      ({ ws := w0 :: List.replicate (n - 1) { variant := v } }, "ok")
     | none => (s, "bad-request")
   | [.list (.atom "cmd" :: wi :: rest)] =>
     match wi.asNat, cmdOfSx rest with
